@@ -3,7 +3,7 @@
 From Coq Require Import List NArith Bool Lia.
 From Breadlog Require Import Model.Peg Model.Text Model.Regex Model.Glue Model.Tables Model.Utf8 Model.Driver Model.History.
 From Breadlog Require Import Gen.Consts.
-From Breadlog Require Import Proofs.RewriteFacts Proofs.WorldFacts Proofs.DriverFacts Proofs.AllocFacts Proofs.RunFacts Proofs.HistoryFacts Proofs.CheckFacts Proofs.StatementLemmas Proofs.ArgLemmas Proofs.FileSpec Proofs.CanonicalRun.
+From Breadlog Require Import Proofs.RewriteFacts Proofs.WorldFacts Proofs.DriverFacts Proofs.AllocFacts Proofs.RunFacts Proofs.HistoryFacts Proofs.CheckFacts Proofs.RuleLemmas Proofs.StatementLemmas Proofs.ArgLemmas Proofs.FileSpec Proofs.CanonicalRun.
 From Breadlog Require Import Properties.Common.
 Import ListNotations.
 Open Scope N_scope.
@@ -64,6 +64,45 @@ Theorem C03_canonical_files : forall rc files lk o j b its fin,
     map e_pos todo = offsets 0 chunks.
 Proof. exact canonical_file_after_edit. Qed.
 
+(* THE WHOLE NEW TEXT, in message style: the bytes written are exactly the UTF-8 encoding of the canonical
+   file with the same layout, names, arguments and other items, whose statements without a reference (configured
+   name, no ignore directive) now begin their message with `[ref: N] `, N consecutive from some c0 in file
+   order (`retoken`, Proofs/CanonicalRun.v).  No chunks, no offsets: an equation between texts. *)
+Theorem C03_canonical_rewritten : forall rc files lk o j b its fin,
+  files <> [] -> nth_error files j = Some b ->
+  utf8_decode b = Some (render_items its fin) -> items_ok its fin -> o_rfail2 o j = false ->
+  cfg_structured (rc_cfg rc) = false ->
+  let new := nth_error (w_src (after rc files lk o)) j in
+  new = Some b \/
+  exists c0, new = Some (utf8_encode (render_items (retoken (rc_cfg rc) (render_items its fin) its [] c0) fin)).
+Proof. exact canonical_file_rewritten. Qed.
+
+(* non-vacuity: info!("a");\n// x\ninfo!("[ref: 3] b");\nwarn!( "c");\n -- the model of the whole run and
+   `retoken` give the same bytes, and the text is the one expected *)
+Definition rw_items : list (lay * item) :=
+  let info := mkQ 105 false [(110, false);(102, false);(111, false)] in
+  let warn := mkQ 119 false [(97, false);(114, false);(110, false)] in
+  [(([], []), IStmt info ([], []) [MChar 97]); (([], []), IChar 41); (([], []), IChar 59);
+   (([10], [(CLine [32;120], [10])]), IStmt info ([], []) (map MChar [91;114;101;102;58;32;51;93;32;98])); (([], []), IChar 41); (([], []), IChar 59);
+   (([10], []), IStmt warn ([32], []) [MChar 99]); (([], []), IChar 41); (([], []), IChar 59)].
+Definition rw_fin : lay := ([10], []).
+Definition rw_cfg : config := mkConfig false [([108;111;103], [105;110;102;111]); ([108;111;103], [119;97;114;110])].
+Example C03_rewritten_nonvacuous :
+  let code := render_items rw_items rw_fin in
+  let o := mkOracle None None (fun _ => false) (fun _ => false) (fun _ => FNone) LkOk in
+  items_ok rw_items rw_fin /\
+  nth_error (w_src (after (mkRunCfg rw_cfg true) [utf8_encode code] LAbsent o)) 0
+    = Some (utf8_encode (render_items (retoken rw_cfg code rw_items [] 4) rw_fin)) /\
+  render_items (retoken rw_cfg code rw_items [] 4) rw_fin =
+    (* info!("[ref: 4] a");\n// x\ninfo!("[ref: 3] b");\nwarn!( "[ref: 5] c");\n *)
+    [105;110;102;111;33;40;34;91;114;101;102;58;32;52;93;32;97;34;41;59;10;47;47;32;120;10;
+     105;110;102;111;33;40;34;91;114;101;102;58;32;51;93;32;98;34;41;59;10;
+     119;97;114;110;33;40;32;34;91;114;101;102;58;32;53;93;32;99;34;41;59;10].
+Proof.
+  cbv zeta. split; [|split; vm_compute; reflexivity].
+  cbn. repeat split; try reflexivity; try exact I; try discriminate.
+Qed.
+
 (* non-vacuity / shape check on a concrete file with a multi-byte character and CRLF *)
 Example C03_nonvacuous :
   let f := utf8_encode [252;59;13;10;105;110;102;111;33;40;34;91;114;101;102;58;32;51;93;32;97;34;41;59;105;110;102;111;33;40;34;98;34;41;59] in
@@ -75,3 +114,4 @@ Proof. vm_compute. reflexivity. Qed.
 
 Print Assumptions C03_insert_only.
 Print Assumptions C03_canonical_files.
+Print Assumptions C03_canonical_rewritten.
